@@ -55,8 +55,8 @@ def build(config, tier):
         body = ("let v = mk::<%s>(); let a = v.%s(); let (r, ok) = ser::record(&v);\n"
                 "    check!(ok && r.shape == 1 && r.declared == %d && r.n == %d && r.name_len == %d, \"serialises as a tuple struct of exactly N elements under its own name\");\n"
                 "    check!(%s, \"elements in lane / column-major order, bit-for-bit\");\n"
-                "    let back: Result<%s, ser::Err> = serde::Deserialize::deserialize(ser::D { rec: &r, len: %d }); check!(match back { Ok(b) => { let c = b.%s(); %s }, Err(_) => false }, \"deserialises back bit-identical\");\n"
-                "    let l: usize = vk::any(); vk::assume(l <= %d && l != %d); let bad: Result<%s, ser::Err> = serde::Deserialize::deserialize(ser::D { rec: &r, len: l }); check!(l > %d || bad.is_err(), \"shorter sequences are rejected\");") % (
+                "    let back: Result<%s, ser::SErr> = serde::Deserialize::deserialize(ser::D { rec: &r, len: %d }); check!(match back { Ok(b) => { let c = b.%s(); %s }, Err(_) => false }, \"deserialises back bit-identical\");\n"
+                "    let l: usize = vk::any(); vk::assume(l <= %d && l != %d); let bad: Result<%s, ser::SErr> = serde::Deserialize::deserialize(ser::D { rec: &r, len: l }); check!(l > %d || bad.is_err(), \"shorter sequences are rejected\");") % (
             N, arr, n, n, len(N),
             " && ".join("r.kind[%d] == %d && r.bits[%d] == %s" % (i, k, i, bits("a[%d]" % i, t)) for i in range(n)),
             N, n, arr, " && ".join("%s == %s" % (bits("c[%d]" % i, t), bits("a[%d]" % i, t)) for i in range(n)),
